@@ -89,19 +89,31 @@ def check_registry(ctx, lib):
                     continue
                 ok = False
         ctx.check(ok, rule, "lookup", "get_function(name) = functions.get(name).map(AsRef::as_ref) — exact key, no normalisation", b.span)
-    b = ctx.fn("<runtime::Runtime as std::default::Default>::default", rule=rule)
-    if b is not None:
-        o = Origins(b, lib)
-        aggs = [s for _, _, s in b.stmts() if s["k"] == "assign" and s["rv"]["k"] == "agg" and s["rv"].get("adt") == "runtime::Runtime"]
-        ok = len(aggs) == 1
-        if ok:
-            f = o.of_operand(aggs[0]["rv"]["ops"][0])
-            ok = all(t[0] == "call" and re.match(r"^std::collections::HashMap::<K, V>::(new|with_capacity)$", t[1]) for t in f) and bool(f)
-        ctx.check(ok, rule, "fresh-is-empty", "a fresh runtime holds an empty map (HashMap::new / with_capacity)", b.span)
-    n = ctx.fn("runtime::Runtime::new", rule=rule)
-    if n is not None:
-        names = [t.get("resolved") or t["callee"] for _, t in n.calls()]
-        ctx.check(names == ["<runtime::Runtime as std::default::Default>::default"], rule, "new-is-default", f"Runtime::new() is Default::default() (calls {names})", n.span)
+    # a fresh runtime: `new` and `default` — one builds Runtime { functions: <empty map> }, the other may delegate to it
+    DEF = "<runtime::Runtime as std::default::Default>::default"
+    NEWF = "runtime::Runtime::new"
+    built_empty = set()
+    for fn in (DEF, NEWF):
+        fb = ctx.fn(fn, rule=rule)
+        if fb is None:
+            continue
+        fo = Origins(fb, lib)
+        aggs = [s for _, _, s in fb.stmts() if s["k"] == "assign" and s["rv"]["k"] == "agg" and s["rv"].get("adt") == "runtime::Runtime"]
+        if aggs:
+            okf = len(aggs) == 1
+            if okf:
+                f = fo.of_operand(aggs[0]["rv"]["ops"][0])
+                okf = all(t[0] == "call" and re.match(r"^std::collections::HashMap::<K, V>::(new|with_capacity)$", t[1]) for t in f) and bool(f)
+            ctx.check(okf, rule, "fresh-is-empty", f"{fn.split('::')[-1]}: a fresh runtime holds an empty map (HashMap::new / with_capacity)", fb.span)
+            if okf:
+                built_empty.add(fn)
+    for fn, other in ((NEWF, DEF), (DEF, NEWF)):
+        fb = lib.fn(fn)
+        if fb is None or fn in built_empty:
+            continue
+        names = [t.get("resolved") or t["callee"] for _, t in fb.calls()]
+        ctx.check(names == [other] and other in built_empty, rule, "new-is-default", f"{fn} delegates to {other}, which builds the empty runtime (calls {names})", fb.span)
+    ctx.check(bool(built_empty), rule, "fresh-runtime", f"a fresh runtime is built empty in {sorted(built_empty)}")
     # who may touch the field / construct a Runtime
     touch = set()
     make = set()
@@ -116,7 +128,7 @@ def check_registry(ctx, lib):
                     touch.add(b.deff)
     allowed = {"runtime::Runtime::register_function", "runtime::Runtime::deregister_function", "runtime::Runtime::get_function"}
     ctx.check(touch == allowed, rule, "who-may-touch", f"only register / deregister / get touch the map (found {sorted(touch)})")
-    ctx.check(make == {"<runtime::Runtime as std::default::Default>::default"}, rule, "who-may-construct", f"a Runtime is only constructed empty (found {sorted(make)})")
+    ctx.check(bool(make) and make <= built_empty, rule, "who-may-construct", f"a Runtime is only constructed empty (found {sorted(make)})")
     reg, problems = B.registry(lib)
     ok = reg is not None and not problems and len(reg) == 26 and len({r[0] for r in reg}) == 26
     ctx.check(ok, rule, "builtins", f"register_builtin_functions performs exactly 26 register_function(\"name\", Box::new(T::new())) calls with distinct names ({problems[:2] if problems else ''})")
